@@ -207,3 +207,65 @@ def make_rule(rid, select, acc_names, floor, what):
             res.missing_anchor("guarded accumulator updates (found %d)" % n)
         return res.finish(floor)
     return rule
+
+
+def zero_test_kind(c, cond):
+    """'exact' for `v == 0` / `v != 0`, 'tolerance' for approx's abs_diff / relative / ulps forms against zero, None otherwise"""
+    cond = strip(cond)
+    if cond.get("k") == "Unary" and cond["op"] == "!":
+        return zero_test_kind(c, cond["e"])
+    if cond.get("k") == "Binary" and cond["op"] in ("==", "!="):
+        if _is_zero(c, cond["l"]) or _is_zero(c, cond["r"]):
+            return "exact"
+    if cond.get("k") == "MethodCall" and cond["name"] in ("eq", "ne", "abs_diff_eq", "abs_diff_ne", "relative_eq", "relative_ne", "ulps_eq", "ulps_ne") and len(cond["args"]) >= 2:
+        if _is_zero(c, cond["args"][0]) or _is_zero(c, cond["args"][1]):
+            d = c.dfn(cond.get("def")) or {}
+            if d.get("krate") == "approx" or "approx" in (d.get("path") or "") or cond["name"] != "eq" and cond["name"] != "ne" or "AbsDiff" in (c.ty(peel_refs(cond["recv"]).get("t")) or "") or "Relative" in (c.ty(peel_refs(cond["recv"]).get("t")) or ""):
+                return "tolerance"
+    return None
+
+
+def make_exact_rule(rid, select, acc_names, floor, what):
+    """A zero test that decides *what is computed* - a column that is skipped, an update that is left out - is an exact
+    comparison.  `abs_diff_eq!(q, 0)` compares with the machine epsilon as an absolute tolerance: whether a quantity that
+    scales with the data (a squared column norm, a coefficient) passes it depends on the unit the data is measured in, so the
+    fitted model is not the scaled model of the scaled data."""
+    def rule(ctx):
+        res = RuleResult(rid, "zero tests that decide whether a column is skipped or %s is updated are exact comparisons (no absolute tolerance on a quantity that scales with the data)" % what)
+        F = ctx.facts()
+        n = 0
+        for fn in F.all_fns():
+            if not select(fn):
+                continue
+            c = fn["crate"]
+            r = Render(c)
+            key = fn_key(fn)
+            ups = [id(u[0]) for u in updates_of(c, fn, acc_names)]
+            seen = set()
+            for y in walk(fn["body"]):
+                if y.get("k") != "If":
+                    continue
+                kind = zero_test_kind(c, y["c"])
+                if kind is None:
+                    continue
+                skips = any(z.get("k") == "Continue" for z in walk(y["then"]))
+                updates = any(id(z) in ups for z in walk(y["then"]))
+                if not (skips or updates):
+                    continue
+                n += 1
+                txt = r.e(strip(y["c"]))[:60]
+                inst = "%s : `%s` at line %s (%s)" % (key, txt, y.get("ln"), "skips the column" if skips else "guards an update")
+                res.instance(inst)
+                if kind == "exact":
+                    res.ok()
+                else:
+                    what_ = "column-skip" if skips else "update-guard"
+                    k2 = "%s : zero-test-with-absolute-tolerance:%s" % (key, what_)
+                    if k2 in seen:
+                        k2 += ":%d" % len(seen)
+                    seen.add(k2)
+                    res.violate(k2, "`%s` compares a quantity that scales with the data against zero with an absolute tolerance (the machine epsilon): features measured in a small unit are treated as all-zero columns / small coefficients as zero, so the fit depends on the unit" % txt, fn_loc(fn, y.get("ln")))
+        if n < floor:
+            res.missing_anchor("zero tests that skip a column or guard an update (found %d)" % n)
+        return res.finish(floor)
+    return rule
